@@ -139,6 +139,26 @@ def main(pid, tier):
             for fs in cf.as_completed(list(futs_s)):
                 results.append((futs_s[fs], fs.result()))
 
+        # ------------------------------------------------------------------ second chance for undecided obligations
+        # (counterexample search under partial concretisations supplied by the harness; only `sat` is used)
+        def second(item):
+            ob, res = item
+            for pin in ob.get("pins") or []:
+                extra = "\n".join(f"(assert (= {n} {_smt_num(val)}))" for n, val in pin.items() if f" {n} " in ob["smt2"])
+                ob2 = dict(ob, smt2=ob["smt2"] + "\n" + extra, timeout=min(15, ob["timeout"]))
+                r2 = solve.solve_one(ob2, tmp)
+                if r2["status"] == "sat":
+                    r2["reason"] = "found under a partial concretisation of the inputs"
+                    r2["time"] = round(res["time"] + r2["time"], 3)
+                    return ob, r2
+            return ob, res
+        undecided = [i for i, (ob, res) in enumerate(results)
+                     if ob["expect"] == "unsat" and res["status"] not in ("sat", "unsat") and ob.get("pins") and not ob.get("nf_closed")]
+        if undecided:
+            with cf.ThreadPoolExecutor(max_workers=JOBS) as pool:
+                for i, new in zip(undecided, pool.map(second, [results[i] for i in undecided])):
+                    results[i] = new
+
         # ------------------------------------------------------------------ verdicts
         known = load_known(pid)
         discharged, inconclusive, violations, known_hits, twins_ok = [], [], [], [], 0
@@ -286,6 +306,14 @@ def main(pid, tier):
         return rc
     finally:
         shutil.rmtree(tmp, ignore_errors=True)
+
+
+def _smt_num(v):
+    v = str(v)
+    if "/" in v:
+        a, b = v.split("/")
+        return f"(/ {float(a):.1f} {float(b):.1f})"
+    return f"{float(v):.1f}" if "." not in v else v
 
 
 def _z3v():
